@@ -501,3 +501,146 @@ def cex_from_model(m, E0, O0, L0, op, t, v):
 
 
 ALL = [ob_new, ob_push, ob_remove, ob_get, ob_iter, ob_eq, ob_write_dn]
+
+
+# ------------------------------------------------------------------------------------------ GeneralName writers
+
+def _flat(evs):
+    """events -> nested string, e.g. write_tagged_implicit[ctx 4]{write_sequence{...}}"""
+    out = ""
+    for e in evs:
+        if e[0] == "open":
+            args = ",".join(_arg(a) for a in e[2])
+            out += f"{e[1]}({args})" + "{"
+        elif e[0] == "close":
+            out += "}"
+        else:
+            out += f"{e[1]}({','.join(_arg(a) for a in e[2])})"
+    return out
+
+
+def _arg(a):
+    kind, data = a
+    if kind == "tag-context":
+        return f"ctx{data}"
+    if kind in ("tag", "oid-const"):
+        return str(data)
+    if kind == "oid":
+        return "oid(" + _arg(data) + ")"
+    if kind.startswith("payload-"):
+        return kind[len("payload-"):] + "(" + (getattr(data, "what", None) or str(data)) + ")"
+    if kind in ("cidr-to-bytes", "ip-octets"):
+        return f"{kind}({data})"
+    if kind == "term":
+        return str(z3.simplify(data)) if z3.is_expr(data) else str(data)
+    return kind
+
+
+def ob_subtrees(fns):
+    ob = Obligation("subtree_writer", "write_general_subtrees: per GeneralSubtree variant the base GeneralName carries the RFC 5280 context tag (rfc822Name 1, "
+                                      "dNSName 2, directoryName 4, iPAddress 7), IMPLICIT for the primitive kinds and EXPLICIT for directoryName (Name is a CHOICE)",
+                    ["write_general_subtrees (+ closures)", "GeneralSubtree::tag", "write_distinguished_name"])
+    eng, models = setup(fns)
+    f = find(fns, r"^write_general_subtrees$")
+    d = z3.Int("subtree_discr")
+    dn, E0, O0, L0 = fresh_dn("sub")
+    sub = E.EnumV("GeneralSubtree", d, [("Rfc822Name", [Opaque("String", "rfc822")]), ("DnsName", [Opaque("String", "dns")]),
+                                        ("DirectoryName", [dn]), ("IpAddress", [Opaque("CidrSubnet", "subnet")])])
+    st = State()
+    st.pc += [d >= 0, d <= 3, inv(E0, O0, L0, "sub"), L0 == 0]
+    seen = {}
+    for (s2, ret) in eng.run_fn(f, [Opaque("writer"), Z(z3.IntVal(0)), Ref(Cell(E.ListV([sub])))], st):
+        ob.paths += 1
+        sol = z3.Solver()
+        sol.add(*s2.pc)
+        if sol.check() != z3.sat:
+            continue
+        ob.reach = True
+        k = sol.model().eval(d, model_completion=True).as_long()
+        seen[k] = _flat(s2.events)
+    ob.shapes = seen
+    want = {
+        0: "write_tagged_implicit(ctx0){write_sequence(){write_sequence(){write_tagged_implicit(ctx1){write_ia5_string(as_str(String))}}}}",
+        1: "write_tagged_implicit(ctx0){write_sequence(){write_sequence(){write_tagged_implicit(ctx2){write_ia5_string(as_str(String))}}}}",
+        2: "write_tagged_implicit(ctx0){write_sequence(){write_sequence(){write_tagged(ctx4){write_sequence(){}}}}}",
+        3: "write_tagged_implicit(ctx0){write_sequence(){write_sequence(){write_tagged_implicit(ctx7){write_bytes(cidr-to-bytes(subnet))}}}}",
+    }
+    ob.queries = len(seen)
+    if set(seen) != {0, 1, 2, 3}:
+        ob.result, ob.reason = "inconclusive", f"variants reached: {sorted(seen)}"
+        return ob
+    bad = {k: v for k, v in seen.items() if v != want[k]}
+    if not bad:
+        ob.result = "pass"
+    elif 2 in bad and "write_tagged_implicit(ctx4){write_sequence" in bad[2]:
+        ob.result, ob.cex = "fail", {"op": "subtree-dirname", "got": bad[2], "want": want[2]}
+    else:
+        k = sorted(bad)[0]
+        known_shape = any(tok in bad[k] for tok in ("write_tagged", "write_ia5_string", "write_bytes"))
+        ob.result = "fail" if known_shape and ("ctx" in bad[k]) else "inconclusive"
+        ob.cex = {"op": "subtree-shape", "variant": k, "got": bad[k], "want": want[k]}
+        ob.reason = f"variant {k}: {bad[k]} (expected {want[k]})"
+    return ob
+
+
+def ob_san(fns):
+    ob = Obligation("san_writer", "write_subject_alt_names: the extension is critical exactly when the subject name is empty; each SanType variant is written "
+                                  "under its RFC 5280 context tag (otherName 0 constructed with [0] EXPLICIT value, rfc822Name 1, dNSName 2, URI 6, iPAddress 7)",
+                    ["CertificateParams::write_subject_alt_names (+ closures)", "write_x509_extension", "SanType::tag", "OtherNameValue::write_der"])
+    eng, models = setup(fns)
+    f = find(fns, r"::write_subject_alt_names$", r"^&CertificateParams$")
+    d = z3.Int("san_discr")
+    ipd = z3.Int("ip_discr")
+    dn, E0, O0, L0 = fresh_dn("subj")
+    ip = E.EnumV("IpAddr", ipd, [("V4", [Opaque("Ipv4Addr", "v4")]), ("V6", [Opaque("Ipv6Addr", "v6")])])
+    other = Agg("tuple", [Cell(Opaque("Vec<u64>", "other-oid")), Cell(E.EnumV("OtherNameValue", z3.IntVal(0), [("Utf8String", [Opaque("String", "other-text")])]))])
+    san = E.EnumV("SanType", d, [("Rfc822Name", [Opaque("Ia5String", "rfc822")]), ("DnsName", [Opaque("Ia5String", "dns")]),
+                                 ("URI", [Opaque("Ia5String", "uri")]), ("IpAddress", [ip]), ("OtherName", [other])])
+    fields = [Cell(Opaque("not_before")), Cell(Opaque("not_after")), Cell(Opaque("serial")), Cell(E.ListV([san])), Cell(dn)] + [Cell(Opaque(f"f{i}")) for i in range(5, 13)]
+    params = Agg("CertificateParams", fields)
+    st = State()
+    st.pc += [d >= 0, d <= 4, ipd >= 0, ipd <= 1, inv(E0, O0, L0, "subj")]
+    seen = {}
+    for (s2, ret) in eng.run_fn(f, [Ref(Cell(params)), Opaque("writer")], st):
+        ob.paths += 1
+        sol = z3.Solver()
+        sol.add(*s2.pc)
+        if sol.check() != z3.sat:
+            continue
+        ob.reach = True
+        flat = _flat(s2.events)
+        critical = "write_bool(true)" in flat or "write_bool(True)" in flat
+        r = check_valid(ob, s2.pc, (L0 == 0) == z3.BoolVal(critical), f"san/path{ob.paths}/critical")
+        if r is not None and r != "infeasible":
+            ob.result, ob.cex = "fail", {"op": "san-critical", "note": "SAN criticality differs from (subject is empty)", "events": flat[:300]}
+            return ob
+        mdl = sol.model()
+        k = mdl.eval(d, model_completion=True).as_long()
+        kk = (k, mdl.eval(ipd, model_completion=True).as_long() if k == 3 else 0)
+        seen.setdefault(kk, set()).add(flat.replace("write_bool(true)", "").replace("write_bool(True)", ""))
+    ob.shapes = {str(k): sorted(v) for k, v in seen.items()}
+    inner = {
+        (0, 0): "write_tagged_implicit(ctx1){write_ia5_string(as_str(Ia5String))}",
+        (1, 0): "write_tagged_implicit(ctx2){write_ia5_string(as_str(Ia5String))}",
+        (2, 0): "write_tagged_implicit(ctx6){write_ia5_string(as_str(Ia5String))}",
+        (3, 0): "write_tagged_implicit(ctx7){write_bytes(ip-octets(v4))}",
+        (3, 1): "write_tagged_implicit(ctx7){write_bytes(ip-octets(v6))}",
+        (4, 0): "write_tagged_implicit(ctx0){write_sequence(){write_oid(oid(Vec<u64>))write_tagged(ctx0){write_utf8_string(as_str(String))}}}",
+    }
+    if set(seen) != set(inner):
+        ob.result, ob.reason = "inconclusive", f"variants reached: {sorted(seen)}"
+        return ob
+    for kk, flats in seen.items():
+        for fl in flats:
+            if inner[kk] not in fl or not fl.startswith("write_sequence(){write_oid(oid(SUBJECT_ALT_NAME))"):
+                ob.result = "inconclusive"
+                ob.reason = f"SanType variant {kk}: unexpected writer structure {fl[:300]}"
+                if "ctx" in fl and kk != (4, 0):
+                    ob.result, ob.cex = "fail", {"op": "san-shape", "variant": list(kk), "got": fl[:300], "want": inner[kk]}
+                return ob
+    ob.queries += len(seen)
+    ob.result = "pass"
+    return ob
+
+
+NAMES = [ob_subtrees, ob_san]
